@@ -226,8 +226,12 @@ def parseCase (s : String) (rxm : RxMode := .code) : Except String Case := do
   let j ← Json.parse s
   let mode ← parseMode (← j.getObjValAs? String "mode")
   let items ← (← j.getObjValAs? (Array Json) "rules").toList.mapM (parseItem rxm)
+  -- "dst": SecDefaultAction "phase:P,pass,status:S" lines written before the rules (generated without directives)
+  let dst : List (Nat × Nat) := match j.getObjValAs? (Array (Array Nat)) "dst" with
+    | .ok a => a.toList.filterMap fun p => match p.toList with | [ph, st] => some (ph, st) | _ => none
+    | _ => []
   let (rules, cfgErr) := match buildRules items with
-    | some rs => (rs, false)
+    | some rs => (rs.map (inheritStatus dst), false)
     | none => ([], true)
   let get ← parsePairs j "get"
   let post ← parsePairs j "post"
@@ -295,6 +299,16 @@ def rulePatterns (r : Rule) : List Bytes :=
       | .ctlRemoveTargetByMsg _ _ e => e.rx.toList
       | _ => [])
 
+/-- does a transformation list hand a value that is not ASCII to a case or white-space transformation?
+    (a failing step is skipped, as in the engine) -/
+def chainLeavesAscii : List String → Bytes → Bool
+  | [], _ => false
+  | t :: ts, v =>
+    if !v.all isAscii && ["lowercase", "uppercase", "removewhitespace", "compresswhitespace"].contains t.toLower then true
+    else
+      let (o, _, e) := envTf t v
+      chainLeavesAscii ts (if e then v else o)
+
 /-- inputs outside the modelled fragment: lowercase/uppercase are modelled on ASCII only; regex keys and
     @rx arguments outside the regex fragment -/
 def outsideModel (c0 : Case) : Bool :=
@@ -336,7 +350,12 @@ def outsideModel (c0 : Case) : Bool :=
     | .setvar key _ => key.any (fun t => match t with | .var _ _ _ => true | .text _ => false)
     | _ => false
   let macroOut := macroKey && (nonAscii c.get || nonAscii c.post || nonAscii c.hdr || decoded)
-  (caseTf && (nonAscii c.get || nonAscii c.post || nonAscii c.hdr || decoded)) || rxOut || rxOpOut || macroOut
+  -- hexDecode turns ASCII text ("ab") into arbitrary bytes: outside when a chain with it hands such a value of the
+  -- request to a case or white-space transformation
+  let pool : List Bytes := (c.get ++ c.post ++ c.hdr).flatMap fun p => [p.1, p.2]
+  let hexOut := c.rules.any fun r => r.links.any fun l =>
+    l.tfs.any (fun t => t.toLower == "hexdecode") && pool.any (chainLeavesAscii l.tfs)
+  (caseTf && (nonAscii c.get || nonAscii c.post || nonAscii c.hdr || decoded)) || rxOut || rxOpOut || macroOut || hexOut
 
 def modelIn (rxm : RxMode) (args : List String) : Option String :=
   match args with
